@@ -11,17 +11,19 @@
 EXTENDS Integers, Sequences, FiniteSets, TLC
 
 Retryable == {"net", "h429", "h500"}
+\* answer texts that are not one well-formed JSON document (two contradicting objects concatenated)
+BadFormats == {"twoobj", "twoobjrev"}
 
 Steps(h, ph) == SelectSeq(h, LAMBDA x : x.ph = ph)
 LastOf(q) == q[Len(q)]
 
 \* the screen answered "safe": its last served response is a text carrying safe
 ScreenSafe(h) == LET s == Steps(h, "screen") IN
-                 s # <<>> /\ LastOf(s).r = "text" /\ LastOf(s).t = "safe"
+                 s # <<>> /\ LastOf(s).r = "text" /\ LastOf(s).t = "safe" /\ LastOf(s).fmt \notin BadFormats
 \* the provider's final answer is well-formed with verdict exactly MATCH and acceptable evidence
 GoodMatch(h) == LET m == Steps(h, "main") IN
                 m # <<>> /\ LastOf(m).r = "text" /\ LastOf(m).averdict = "MATCH"
-                /\ LastOf(m).aevid \in {"clean", "empty"}
+                /\ LastOf(m).aevid \in {"clean", "empty"} /\ LastOf(m).fmt \notin BadFormats
 
 \* a run "passes" iff it reports MATCH without error
 Passes(e) == ~e.err /\ e.verdict = "MATCH"
